@@ -196,3 +196,32 @@ Definition tb_rets (c : tb_cfg) (s : tb_st) (ks : list tb_call) : list tb_ret :=
 Definition call_data (k : tb_call) : bytes :=
   match k with WriteSlice d => d | ReadFrom _ _ d => d | _ => [] end.
 Definition supplied (ks : list tb_call) : bytes := concat (map call_data ks).
+
+(* ---- from the WAF's settings to the two buffers (waf.go newTransaction) ----
+   The request buffer gets Limit = SecRequestBodyLimit and MemoryLimit = SecRequestBodyInMemoryLimit
+   (the limit itself when no in-memory limit was configured); the response buffer gets
+   Limit = MemoryLimit = SecResponseBodyLimit: it is held in memory only, whatever the request
+   in-memory limit is. *)
+Record waf_limits := { w_req_limit : Z; w_req_inmem : option Z; w_resp_limit : Z }.
+
+Definition waf_buf_opts (w : waf_limits) (d : tb_dir) : bbopt :=
+  match d with
+  | Req => {| bo_limit := w_req_limit w;
+              bo_mem := match w_req_inmem w with Some m => m | None => w_req_limit w end |}
+  | Resp => {| bo_limit := w_resp_limit w; bo_mem := w_resp_limit w |}
+  end.
+
+(* ---- the length variable that accompanies the body variable ----
+   REQUEST_BODY_LENGTH: "0" at transaction start, set together with REQUEST_BODY by the urlencoded / raw
+   processors (the body variable is non-empty exactly when they ran over a body);
+   RESPONSE_CONTENT_LENGTH: unset until ProcessResponseBody copies the buffer into RESPONSE_BODY
+   (response body access on and a processable content type), then the number of bytes copied. *)
+Definition body_length_var (c : tb_cfg) (s : tb_st) : bytes :=
+  match c_dir c with
+  | Req => itoa (N.of_nat (length (s_bodyvar s)))
+  | Resp =>
+    match s_seen s with
+    | Some _ => if c_access c && c_processable c then itoa (N.of_nat (length (s_bodyvar s))) else []
+    | None => []
+    end
+  end.
